@@ -59,6 +59,36 @@ def strat(draw, tier):
             'repl': draw(st.lists(st.sampled_from(REPL), min_size=3, max_size=3)), 'seed': draw(gen.seed_s)}
 
 
+_FAULTY = []
+
+
+def faulty_world(sd, p, area, seed):
+    """observe `sd` with a user-defined transparent object at world cell p whose blocks_vision raises once armed (it constructs fine)"""
+    from gym_gridverse import grid_object as go
+    from gym_gridverse.geometry import Position
+    if not _FAULTY:
+        class FailingPane(go.Floor, register=False):
+            armed = False
+
+            @property
+            def blocks_vision(self):
+                if self.armed:
+                    raise RuntimeError('user-defined grid object: blocks_vision failed')
+                return False
+        _FAULTY.append(FailingPane)
+    if not M.in_grid(sd, p) or p == tuple(sd['agent'][:2]):
+        return
+    S = objs.build_state(sd)
+    pane = _FAULTY[0]()
+    S.grid[Position(*p)] = pane
+    pane.armed = True
+    for name in ('stochastic_raytracing', 'raytracing', 'partially_occluded'):
+        try:
+            obsutil.observe(name, S, area, seed)
+        except Exception:  # noqa: BLE001 -- expected; decides nothing
+            pass
+
+
 def oracle(case, ctx):
     prelude.door_first(ctx)
     sd, area, f = case['state'], case['area'], case['f']
@@ -124,6 +154,11 @@ def oracle(case, ctx):
             ctx.fail(f'{f}: making the shown opaque cell {c} (world {p}, {M.cell(sd, p)}) transparent hides previously shown cell(s) {sorted(lost)[:4]}', sig)
     # (5) stochastic variant bracketed by deterministic ones
     cl = ['f:' + f]
+    if f == 'raytracing' and case['seed'] % 3 == 0 and len(sh) > 1:
+        # a user-defined object whose blocks_vision fails stands in a lit cell of the same world: the observation functions raise, the
+        # caller carries on.  Nothing is decided here; what follows (other worlds, same view) must not have been touched by the failure
+        faulty_world(sd, world_of[sorted(sh - {anchor})[case['picks'][0] % (len(sh) - 1)]], area, case['seed'])
+        cl.append('after_failing_user_object')
     if f == 'raytracing':
         st_ = guarded(ctx, 'stochastic_raytracing', obsutil.observe, 'stochastic_raytracing', sd, area, case['seed'])
         lit = guarded(ctx, 'raytracing(relative, 1.0)', obsutil.observe, None, sd, area, None, 'raytracing', {'absolute_counts': False, 'threshold': 1.0})
